@@ -218,7 +218,10 @@ def or_reset_spec(parent, requested, active_low, which="or"):
                     # and_reset: in reset only when BOTH sources are: active-low reading (not parent) or expr, active-high parent and expr
                     want = sym.Or(sym.Not(high), e) if active_low else sym.And(high, e)
                 ok_val = sym.is_sym(driven) and it.ctx.entails(driven == want)
-            return bool(ok_async) and bool(ok_val) and r.fields["active_low"] == active_low and res.fields["f_clk"] == "CLK"
+            # "a copy of self with the reset condition set to ...": everything else the context was configured with stays
+            # -- in particular a registered on_reset action (C04) and the step condition
+            kept = res.fields["f_kw"].get("step_cond") == "STEP" and res.fields["f_kw"].get("on_reset") == "ON_RESET" and res.fields["f_attributes"] == {"a": 1}
+            return bool(ok_async) and bool(ok_val) and r.fields["active_low"] == active_low and res.fields["f_clk"] == "CLK" and kept
 
         return C.Pred(holds, "reset mode as requested / inherited; combined reset active when either source is")
 
@@ -231,7 +234,7 @@ for which, parent, requested, active_low in [(w, p, r, a) for w in ("or", "and")
         if True:
             def mk_self(env, parent=parent):
                 r = SObj(_Reset, f_async=None, f_high=None, f_low=None) if parent else None
-                return SObj(SC.SequentialContext, _clk="CLK", _reset=r, _attributes={"a": 1})
+                return SObj(SC.SequentialContext, _clk="CLK", _reset=r, _attributes={"a": 1}, _step_cond="STEP", _on_reset="ON_RESET", _comment=None, _capture_lazy=False)
 
             kw = {"expr": VAL(_cond_fn, "expr"), "active_low": VAL(active_low, repr(active_low))}
             if requested is not None:
@@ -240,7 +243,7 @@ for which, parent, requested, active_low in [(w, p, r, a) for w in ("or", "and")
             c.native = False
             c.models = [(SC.concurrent, _concurrent), (_cond_fn, lambda it: it.expr_value)]
             c.interp_flags = {"class_call_models": {
-                SC.SequentialContext: lambda it, args, kw: SObj(SC.SequentialContext, f_clk=args[0], f_reset=args[1], f_attributes=kw.get("attributes")),
+                SC.SequentialContext: lambda it, args, kw: SObj(SC.SequentialContext, f_clk=args[0], f_reset=args[1], f_attributes=kw.get("attributes"), f_kw=dict(kw)),
                 SC.Reset: lambda it, args, kw: SObj(SC.Reset, f_signal=args[0], active_low=kw.get("active_low"), is_async=kw.get("is_async")),
             }}
 
